@@ -197,7 +197,10 @@ def rule_degrees(ctx, rid):
         for ls in walk_loops(e.state):
             for kind, b in ls.body_states:
                 for eff in b.effects:
-                    if eff[0] == 'setitem' and eff[5] == 'X':
+                    # an in-place update of a column of the array being normalised, whatever the local is called and
+                    # whether it is written directly or through a view: A[:, i, j] = ...
+                    if eff[0] == 'setitem' and eff[2][0] == 'tuple' and len(eff[2][1]) == 3 \
+                            and eff[2][1][0] == ('slice', NONE, NONE, NONE) and all(x[0] in ('s', 'bv') for x in eff[2][1][1:]):
                         val = eff[3]
                         idx = eff[2]
                         n += 1
@@ -213,10 +216,10 @@ def rule_degrees(ctx, rid):
                         if not envs:
                             bad = 'denominator is %s' % show(den)[:60]
                 # the envelope variable always holds an envelope of the same column
-                envv = b.env.get('env')
-                if envv is not None and envv[0] == 'call':
-                    if envv[1] != 'emd.sift.interp_envelope' or dict(envv[3]).get('mode') != C('combined'):
-                        bad = 'envelope variable holds %s' % show(envv)[:60]
+                for envn, envv in b.env.items():
+                    if isinstance(envv, tuple) and envv and envv[0] == 'call' and envv[1] == 'emd.sift.interp_envelope':
+                        if dict(envv[3]).get('mode') != C('combined'):
+                            bad = 'envelope variable %s holds %s' % (envn, show(envv)[:60])
     if bad:
         ctx.violation(rid, an, c, bad)
     elif n == 0:
@@ -287,10 +290,8 @@ def rule_methods(ctx, rid):
 # C09.R6: the per-method pipeline of frequency_transform, clause by clause
 def _imf_root(t):
     """the (ensured) input IMFs, with the lift imf[:, :, None] stripped: -> (root, lifted?)"""
-    FULL = ('slice', NONE, NONE, NONE)
-    lifted = False
-    if t[0] == 'sub' and t[2] == ('tuple', (FULL, FULL, NONE)):
-        t, lifted = t[1], True
+    from .common import strip_lift
+    t, lifted = strip_lift(t)
     if t == S('imf'):
         return t, lifted
     if t[0] == 'call' and t[1] == 'emd.support.ensure_2d':
@@ -373,82 +374,38 @@ def rule_pipeline(ctx, rid):
                     und[c_am] = 'amplitude %s' % show(am)[:60]
                 continue
             # nht / quad: envelope per column, lifted to 3-D and back
-            is2d = None
-            for cd, tr, ln in e.state.conds:
-                if cd[0] == 'cmp' and cd[1] in ('==', '!=') and cd[3] == C(2) and cd[2][0] == 'attr' and cd[2][2] == 'ndim' \
-                        and _imf_root(cd[2][1])[0] is not None:
-                    is2d = (cd[1] == '==') == tr
-            post = am
-            unlift = False
-            if am[0] == 'sub' and am[2] in (('tuple', (FULL, FULL, C(0))), ('tuple', (FULL, FULL, C(-1)))):
-                post, unlift = am[1], True         # the auxiliary axis has length one: element 0 is element -1
-            elif am[0] == 'sub' and am[2][0] == 'tuple' and len(am[2][1]) == 3 and am[2][1][:2] == (FULL, FULL) \
-                    and is_c(am[2][1][2]) and isinstance(am[2][1][2][1], int):
-                bad[c_am] = 'element %d of the auxiliary axis (length one) is taken: IndexError for every 2-D input' % am[2][1][2][1]
+            from .common import lifted_column_loops
+            status, info = lifted_column_loops(e, am)
+            if status == 'infeasible':
                 continue
-            if not (post[0] == 's' and '@F' in post[1]):
-                und[c_am] = 'amplitude %s' % show(am)[:60]
+            if status == 'unknown':
+                und[c_am] = info
                 continue
-            if is2d is None:
-                und[c_am] = 'no test of the number of dimensions on this path'
+            if status == 'bad':
+                bad[c_am] = info
                 continue
-            if is2d != unlift:
-                bad[c_am] = ('for 2-D input the amplitude keeps the auxiliary third axis (shape [samples, imfs, 1])' if is2d
-                             else 'for 3-D input the last axis is dropped ([:, :, 0])')
+            ent = info['entry']
+            if not (ent[0] == 'alloc_like' and _imf_root(ent[1])[0] is not None) and not (
+                    ent[0] == 'call' and ent[1] in ('numpy.zeros', 'numpy.empty') and ent[2]
+                    and ent[2][0][0] == 'attr' and ent[2][0][2] == 'shape' and _imf_root(ent[2][0][1])[0] is not None):
+                und[c_am] = 'the amplitude array starts as %s' % show(ent)[:60]
                 continue
-            name = post[1].split('@')[0]
-            found = False
-            for ls in e.state.loops:
-                if ls.kind != 'for':
+            for ls, l2, idx, val, b2 in info['stores']:
+                if not (val[0] == 'call' and val[1] in ('emd.sift.interp_envelope', 'emd.utils.interp_envelope')):
+                    bad[c_am] = 'the amplitude of a column is %s' % show(val)[:60]
                     continue
-                ent = ls.entry_env.get(name)
-                stores_here = any(f[0] == 'setitem' and f[5] == name for kind, b in ls.body_states for l2 in b.loops
-                                  for k2, b2 in l2.body_states for f in b2.effects)
-                if ent is None and stores_here:
-                    bad[c_am] = 'the amplitude array %s is written before it is created (NameError for every input)' % name
-                if ent is not None and ent[0] == 's' and str(ent[1]).startswith('global:'):
-                    bad[c_am] = 'the amplitude array %s is written before it is created (NameError for every input)' % name
-                elif ent is not None and ent[0] == 'call' and ent[1] in ('numpy.zeros_like', 'numpy.empty_like', 'numpy.ones_like') and ent[2]:
-                    r_, l_ = _imf_root(ent[2][0])
-                    if r_ is None or l_ != is2d:
-                        bad[c_am] = 'the amplitude array is allocated like %s, not like the (lifted) IMFs' % show(ent[2][0])[:50]
-                for kind, b in ls.body_states:
-                    for l2 in b.loops:
-                        if l2.kind != 'for' or l2.node is ls.node:
-                            continue
-                        for k2, b2 in l2.body_states:
-                            for f in b2.effects:
-                                if f[0] != 'setitem' or f[5] != name:
-                                    continue
-                                found = True
-                                idx, val = f[2], f[3]
-                                if idx != ('tuple', (FULL, ls.var, l2.var)):
-                                    bad[c_am] = 'the envelope of column (%s, %s) is stored at %s' % (show(ls.var), show(l2.var), show(idx)[:40])
-                                if not (val[0] == 'call' and val[1] in ('emd.sift.interp_envelope', 'emd.utils.interp_envelope')):
-                                    bad[c_am] = 'the amplitude of a column is %s' % show(val)[:60]
-                                    continue
-                                vkw = dict(val[3])
-                                if vkw.get('mode', C('upper')) != C('upper'):
-                                    bad[c_am] = "interp_envelope(mode=%s): the amplitude is the upper envelope" % show(vkw['mode'])
-                                X = vkw.get('X', NONE)
-                                okx = X[0] == 'sub' and X[2] == ('tuple', (FULL, ls.var, l2.var))
-                                root, lifted = _imf_root(X[1]) if okx else (None, False)
-                                if not okx or root is None:
-                                    bad[c_am] = 'the envelope stored for column (%s, %s) is computed from %s' % (
-                                        show(ls.var), show(l2.var), show(X)[:60])
-                                elif lifted != is2d:
-                                    bad[c_am] = 'a %s-D input is indexed with three indices %s the auxiliary axis' % (
-                                        2 if is2d else 3, 'without' if is2d else 'after adding')
-                                # loop ranges
-                                for lsx, axn in ((ls, 1), (l2, 2)):
-                                    it = lsx.iter_term
-                                    okr = it[0] == 'call' and it[1] == 'builtins.range' and len(it[2]) == 1 and it[2][0][0] == 'sub' \
-                                        and it[2][0][2] == C(axn) and it[2][0][1][0] == 'attr' and it[2][0][1][2] == 'shape' \
-                                        and _imf_root(it[2][0][1][1])[0] is not None
-                                    if not okr:
-                                        bad[c_am] = 'the loop over axis %d runs over %s' % (axn, show(it)[:60])
-            if not found and bad[c_am] is None:
-                bad[c_am] = 'the per-column envelopes are never stored: the amplitude stays zero'
+                vkw = dict(val[3])
+                if vkw.get('mode', C('upper')) != C('upper'):
+                    bad[c_am] = "interp_envelope(mode=%s): the amplitude is the upper envelope" % show(vkw['mode'])
+                X = vkw.get('X', NONE)
+                okx = X[0] == 'sub' and X[2] == idx
+                root, lifted = _imf_root(X[1]) if okx else (None, False)
+                if not okx or root is None:
+                    bad[c_am] = 'the envelope stored for column (%s, %s) is computed from %s' % (
+                        show(ls.var), show(l2.var), show(X)[:60])
+                elif lifted != info['is2d']:
+                    bad[c_am] = 'a %s-D input is indexed with three indices %s the auxiliary axis' % (
+                        2 if info['is2d'] else 3, 'without' if info['is2d'] else 'after adding')
         for c in (c_sig, c_ph, c_am):
             if bad[c]:
                 ctx.violation(rid, fi, c, bad[c])
@@ -476,7 +433,7 @@ def rule_unwrapped_phase(ctx, rid):
     c_sel = "ret_phase selects the unwrapped phase or its wrapped form"
     exits = Evaluator(P).run(fi, context={'ret_phase': 'unwrapped', 'phase_jump': 'ascending'})
     ctx.paths += len(exits)
-    bad_core = bad_sm = None
+    bad_core = bad_sm = und_core = None
     n = 0
     for e in exits:
         if e.kind != 'return':
@@ -506,80 +463,65 @@ def rule_unwrapped_phase(ctx, rid):
             bad_core = "phase_jump='ascending' shifts the phase by %s%s, not by +pi/2 (a sinusoid's starting phase is then not " \
                        "recovered)" % (v[1], show(off)[:30])
             continue
-        unlift = False
-        if core[0] == 'sub' and core[2] in (('tuple', (FULL, FULL, C(0))), ('tuple', (FULL, FULL, C(-1)))):
-            core, unlift = core[1], True
-        if is2d is not None and is2d != unlift:
-            bad_core = ('for a 2-D signal the phase keeps the auxiliary third axis' if is2d
-                        else 'for a 3-D signal the last axis is dropped')
-            continue
-        post = core
-        lifted = False
-        if core[0] == 'sub' and core[2] == ('tuple', (FULL, FULL, NONE)):
-            core, lifted = core[1], True
-        if core == U:
-            if sm is True:
-                bad_sm = 'smoothing is requested but the phase returned is not filtered'
-            if lifted != unlift:
+        from .common import strip_unlift, strip_lift, lifted_column_loops
+        plain, unl = strip_unlift(core)
+        if unl is True:
+            plain2, lif = strip_lift(plain)
+        else:
+            plain2, lif = strip_lift(core) if unl is False else (core, False)
+        if plain2 == U and unl in (True, False):
+            # no loop involved: unwrap(angle(signal)) possibly lifted and un-lifted again
+            if lif != (unl is True):
                 bad_core = 'the auxiliary axis is added without being removed (or the reverse)'
+            elif sm is True:
+                bad_sm = 'smoothing is requested but the phase returned is not filtered'
             continue
-        if not unw and not (post[0] == 's' and '@F' in post[1]):
-            bad_core = 'the phase is not np.unwrap(np.angle(signal)): %s' % show(core)[:60]
-            continue
-        if unw and unw[0] != U and unw[0][0] == 'call':
+        if unw and unw[0] != U and unw[0][0] == 'call' and not any(t_[0] == 's' and '@F' in t_[1] for t_ in subterms(core)):
             ax = dict(unw[0][3]).get('axis', C(-1))
             if unw[0][2] != U[2]:
                 bad_core = 'the phase unwrapped is %s, not np.angle(complex_signal)' % show(unw[0][2][0])[:50]
             elif ax != C(0):
                 bad_core = 'np.unwrap runs along axis %s (default: the last axis = across IMFs), not along the samples' % show(ax)
+            else:
+                und_core = 'the phase is %s' % show(core)[:70]
             continue
-        if post[0] == 's' and '@F' in post[1]:
-            # the smoothed array
-            if sm is False:
-                bad_sm = 'the phase is filtered although no smoothing was requested'
+        status, info = lifted_column_loops(e, core)
+        if status == 'infeasible':
+            n -= 1
+            continue
+        if status == 'unknown':
+            und_core = info
+            continue
+        if status == 'bad':
+            bad_core = info
+            continue
+        # the array filtered column by column
+        if sm is False:
+            bad_sm = 'the phase is filtered although no smoothing was requested'
+            continue
+        ent = info['entry']
+        if ent != U:
+            if ent[0] == 'call' and ent[1] == 'numpy.unwrap':
+                ax = dict(ent[3]).get('axis', C(-1))
+                bad_core = ('np.unwrap runs along axis %s (default: the last axis = across IMFs), not along the samples' % show(ax)
+                            if ent[2] == U[2] and ax != C(0) else 'the array that is smoothed starts as %s' % show(ent)[:70])
+            else:
+                und_core = 'the array that is smoothed starts as %s' % show(ent)[:70]
+            continue
+        for ls, l2, idx, val, b2 in info['stores']:
+            if not (val[0] == 'call' and val[1] == 'scipy.signal.medfilt' and val[2]):
+                bad_sm = 'a column is replaced by %s' % show(val)[:60]
                 continue
-            name = post[1].split('@')[0]
-            seen = False
-            for ls in e.state.loops:
-                if ls.kind != 'for':
-                    continue
-                ent = ls.entry_env.get(name)
-                want_ent = ('sub', U, ('tuple', (FULL, FULL, NONE))) if is2d else U
-                if ent is not None and ent != want_ent:
-                    bad_core = 'the array that is smoothed starts as %s' % show(ent)[:70]
-                for kind, b in ls.body_states:
-                    for l2 in b.loops:
-                        if l2.kind != 'for' or l2.node is ls.node:
-                            continue
-                        for k2, b2 in l2.body_states:
-                            for f in b2.effects:
-                                if f[0] != 'setitem' or f[5] != name:
-                                    continue
-                                seen = True
-                                idx, val = f[2], f[3]
-                                if idx != ('tuple', (FULL, ls.var, l2.var)):
-                                    bad_sm = 'the filtered column is stored at %s' % show(idx)[:40]
-                                if not (val[0] == 'call' and val[1] == 'scipy.signal.medfilt' and val[2]):
-                                    bad_sm = 'a column is replaced by %s' % show(val)[:60]
-                                    continue
-                                a0 = val[2][0]
-                                if not (a0[0] == 'sub' and a0[2] == ('tuple', (FULL, ls.var, l2.var))):
-                                    bad_sm = 'column (%s, %s) is replaced by the filter of %s' % (show(ls.var), show(l2.var), show(a0)[:50])
-                                k = dict(val[3]).get('kernel_size', val[2][1] if len(val[2]) > 1 else C(3))
-                                if is_c(k) and isinstance(k[1], int) and (k[1] % 2 == 0 or k[1] < 1):
-                                    bad_sm = 'scipy.signal.medfilt needs an odd window, %d raises ValueError' % k[1]
-                        for lsx, axn in ((ls, 1), (l2, 2)):
-                            it = lsx.iter_term
-                            okr = it[0] == 'call' and it[1] == 'builtins.range' and len(it[2]) == 1 and it[2][0][0] == 'sub' \
-                                and it[2][0][2] == C(axn) and it[2][0][1][0] == 'attr' and it[2][0][1][2] == 'shape'
-                            if not okr:
-                                bad_sm = 'the loop over axis %d of the phase runs over %s' % (axn, show(it)[:50])
-            if not seen and bad_sm is None:
-                bad_sm = 'smoothing is requested but no column is filtered'
-            continue
-        bad_core = 'the phase is %s' % show(core)[:70]
+            a0 = val[2][0]
+            if not (a0[0] == 'sub' and a0[2] == idx):
+                bad_sm = 'column (%s, %s) is replaced by the filter of %s' % (show(ls.var), show(l2.var), show(a0)[:50])
+            k = dict(val[3]).get('kernel_size', val[2][1] if len(val[2]) > 1 else C(3))
+            if is_c(k) and isinstance(k[1], int) and (k[1] % 2 == 0 or k[1] < 1):
+                bad_sm = 'scipy.signal.medfilt needs an odd window, %d raises ValueError' % k[1]
     if bad_core:
         ctx.violation(rid, fi, c_core, bad_core)
+    elif und_core:
+        ctx.undecided(rid, fi, c_core, und_core)
     elif n == 0:
         ctx.undecided(rid, fi, c_core, 'no returning path')
     else:
@@ -621,10 +563,11 @@ def rule_normalise_shape(ctx, rid):
         if e.kind != 'return':
             continue
         n += 1
-        v = e.value
-        unlift = False
-        if v[0] == 'sub' and v[2] in (('tuple', (FULL, FULL, C(0))), ('tuple', (FULL, FULL, C(-1)))):
-            v, unlift = v[1], True
+        from .common import strip_unlift, strip_lift
+        v, unlift = strip_unlift(e.value)
+        if unlift is None or isinstance(unlift, tuple):
+            ctx.undecided(rid, fi, c, 'returns %s' % show(e.value)[:60])
+            return
         if not (v[0] == 's' and '@F' in v[1]):
             ctx.undecided(rid, fi, c, 'returns %s' % show(e.value)[:60])
             return
@@ -633,10 +576,15 @@ def rule_normalise_shape(ctx, rid):
         if not outer:
             ctx.undecided(rid, fi, c, 'no loop over the columns')
             return
-        ent = outer[0].entry_env[name]
-        lifted = False
-        if ent[0] == 'sub' and ent[2] == ('tuple', (FULL, FULL, NONE)):
-            ent, lifted = ent[1], True
+        ent, lifted = strip_lift(outer[0].entry_env[name])
+        via_view = False
+        if not lifted:
+            # the "view" spelling: the array keeps its shape and is written through V = A[:, :, None]
+            for k_, v_ in outer[0].entry_env.items():
+                if k_ != name and isinstance(v_, tuple):
+                    base_, l_ = strip_lift(v_)
+                    if l_ and base_ == ent:
+                        lifted, via_view = True, True
         if ent == S('X'):
             bad = "the caller's array itself is normalised in place (no copy)"
             break
@@ -664,9 +612,9 @@ def rule_normalise_shape(ctx, rid):
             bad = 'a %d-D input is %s' % (2 if is2d else 3, 'not lifted to 3-D before it is indexed with three indices' if is2d
                                          else 'given a fourth axis')
             break
-        if unlift != is2d:
-            bad = ('for 2-D input the result keeps the auxiliary third axis (shape [samples, imfs, 1])' if is2d
-                   else 'for 3-D input the last axis of the result is dropped')
+        if unlift != (is2d and not via_view):
+            bad = ('for 2-D input the result keeps the auxiliary third axis (shape [samples, imfs, 1])' if is2d and not via_view
+                   else 'the last axis of the result is dropped although the array never had an auxiliary axis')
             break
         it = outer[0].iter_term
         okr = it[0] == 'call' and it[1] == 'builtins.range' and len(it[2]) == 1 and it[2][0][0] == 'sub' and it[2][0][2] == C(1) \
